@@ -48,6 +48,8 @@ class Server:
         self.log: list[tuple] = []
         self.record = False
         self.zadd_times: dict[tuple, float] = {}  # (key, member) -> server time of the last ZADD (harness observation)
+        self.zadd_clients: dict[tuple, str | None] = {}  # (key, member) -> name of the client that issued it
+        self.current_client: str | None = None
 
     # -- helpers
     def _touch(self, key: str) -> None:
@@ -243,6 +245,7 @@ class Server:
             n += m not in z
             z[m] = float(s)
             self.zadd_times[(_k(name), m)] = self.clock()
+            self.zadd_clients[(_k(name), m)] = self.current_client
         self._touch(_k(name))
         return n
 
@@ -370,6 +373,7 @@ class Pipe:
             await self.c._lat()
             raise WatchError("Watched variable changed.")
         res = []
+        s.current_client = self.c.name
         for n, a, k in cmds:
             res.append(getattr(s, n)(*a, **k))
         if s.record:
@@ -419,6 +423,7 @@ class Client:
 
         async def call(*a: Any, **k: Any) -> Any:
             await self._lat()
+            self.s.current_client = self.name
             r = fn(*a, **k)
             if self.s.record:
                 self.s.log.append((name, self.name, a, r))
